@@ -292,6 +292,35 @@ def rule_eqstate(ctx):
                     problems.append(("multiset", f"`{norm(n)[:90]}` compares operand lists by membership: repeated operands are not counted (a ^ a ^ b == a ^ b ^ b), "
                                                  f"so equal combinations can filter differently"))
                     break
+            # one-directional containment (`all(any(i == j for j in B) for i in A)`, `all(i in B for i in A)`
+            # without the mirror-image test): (a & a) == (a & b) holds while (a & b) == (a & a) does not -
+            # not symmetric for any operator, idempotent or not (seed C14-m9)
+            pnames = (eq.params[0].name, eq.params[1].name)
+
+            def _side(e):
+                for x in ast.walk(e):
+                    if isinstance(x, ast.Attribute) and isinstance(x.value, ast.Name) and x.value.id in pnames:
+                        return x.value.id
+                return None
+            directions = {}
+            for n in ast.walk(eq.node):
+                if not (isinstance(n, ast.Call) and norm(n.func) == "all" and n.args and isinstance(n.args[0], (ast.GeneratorExp, ast.ListComp))):
+                    continue
+                g = n.args[0]
+                outer = _side(g.generators[0].iter)
+                inner = None
+                if isinstance(g.elt, ast.Compare) and isinstance(g.elt.ops[0], ast.In):
+                    inner = _side(g.elt.comparators[0])
+                elif isinstance(g.elt, ast.Call) and norm(g.elt.func) == "any" and g.elt.args and isinstance(g.elt.args[0], (ast.GeneratorExp, ast.ListComp)):
+                    inner = _side(g.elt.args[0].generators[0].iter)
+                if outer and inner and outer != inner:
+                    directions[(outer, inner)] = n
+            if directions:
+                inst["containment_directions"] = sorted(f"{a} in {b}" for a, b in directions)
+                if len(directions) == 1:
+                    (a, b), n = next(iter(directions.items()))
+                    problems.append(("asymmetric", f"`{norm(n)[:100]}` tests that every operand of `{a}` occurs among those of `{b}` but not the converse: "
+                                                   f"with a repeated operand (x & x) == (x & y) holds while (x & y) == (x & x) does not, and the 'equal' combinations filter differently"))
             pairs = _swap_symmetric(eq)
             want = {frozenset({(0, 0), (1, 1)}), frozenset({(0, 1), (1, 0)})}
             inst["children_pairings"] = sorted(sorted(p) for p in pairs)
